@@ -5,6 +5,7 @@ package zzharness
 // network, raw-wire clients (plain proxying and CONNECT+TLS tunnels).
 
 import (
+	"compress/gzip"
 	"bufio"
 	"bytes"
 	"context"
@@ -57,6 +58,7 @@ type PRes struct {
 	SizeStep    int         `json:"size_step,omitempty"` // every new version of the representation is this much longer
 	Hdr416      string      `json:"hdr416,omitempty"`        // cache headers of a 416 answer: "" (the resource's own) | "none" | "no-store" | "max-age=3600"
 	CondMode    string      `json:"cond,omitempty"`          // "304" (default: proper revalidation) | "200" | "404" | "500"
+	Gzip        bool         `json:"gzip,omitempty"` // the origin compresses the representation (Content-Encoding: gzip) for requests that accept gzip
 	EvictOnCond bool        `json:"evict_on_cond,omitempty"` // the stored entries are deleted while a conditional request for this resource is at the origin
 	BumpAtMs    []int64     `json:"bump_at,omitempty"`
 	BumpEvery   int         `json:"bump_every,omitempty"`
@@ -81,11 +83,14 @@ type PReq struct {
 	IfRange    string      `json:"if_range,omitempty"` // literal; "@etag" / "@lastmod" are replaced by the validators of the last response this client saw
 	Hdr        [][2]string `json:"hdr,omitempty"`
 	AtMs       int64       `json:"at,omitempty"`
+	HelloDelayMs int64     `json:"hello_delay,omitempty"` // tunnel: time between the proxy's 200 and the client's ClientHello
 	ReadChunk  int         `json:"read_chunk,omitempty"`
 	Disconnect int         `json:"disconnect,omitempty"` // 0 none; -1 right after sending; k>0 after k body bytes
 	Body       int         `json:"body,omitempty"`       // request body length
 	ChunkedReq bool        `json:"chunked_req,omitempty"`
 	SameConn   bool        `json:"same_conn,omitempty"` // reuse the previous connection/tunnel of this client
+	BodyIsRequest bool `json:",omitempty"` // the content is itself a well-formed GET for resource 0
+	PipeNext   bool        `json:"pipe_next,omitempty"` // sent in one write together with the following request (same connection): HTTP/1.1 pipelining
 	Truncate   int         `json:"truncate,omitempty"`  // pseudo request: every cache file loses its last n bytes (a damaged disk)
 	Evict      bool        `json:"evict,omitempty"`     // pseudo request: delete every stored entry (an eviction placed by the scheduler)
 	Raw        string      `json:"raw,omitempty"`       // literal request bytes (C16)
@@ -97,6 +102,7 @@ type ProxyPlan struct {
 	Backend     string       `json:"backend"`
 	Shards      int          `json:"shards"`
 	MaxSize     int64        `json:"max"`
+	MemBudget0  bool         `json:"mem_budget_0,omitempty"` // cache.memory.memory_budget_percent = 0: the memory cache may hold nothing
 	IntervalMs  int64        `json:"interval_ms"`
 	Transport   string       `json:"transport"` // "plain" | "connect"
 	IgnoreCC    bool         `json:"ignore_cc"`
@@ -137,7 +143,28 @@ type OLog struct {
 }
 
 // Exch is one request/response exchange as a client saw it.
+// lingerForUnsolicited: the client has its complete answer and has announced "Connection: close".
+// It waits a moment and looks whether anything else arrives on the connection: a second response
+// (e.g. to request content that the proxy took for a request of its own) is never right.
+func (w *proxyWorld) lingerForUnsolicited(cc *clientConn) string {
+	w.sim.WaitUntil("harness:client-linger", time.Now().Add(5*time.Millisecond))
+	var rd io.Reader = cc.br
+	dl := time.Now().Add(time.Millisecond)
+	if cc.tls != nil {
+		cc.tls.SetReadDeadline(dl)
+	} else {
+		cc.raw.SetReadDeadline(dl)
+	}
+	buf := make([]byte, 64)
+	n, _ := rd.Read(buf)
+	if n > 0 {
+		return string(buf[:n])
+	}
+	return ""
+}
+
 type Exch struct {
+	Unsolicited string // bytes that arrived after the complete response although the client had said "Connection: close"
 	Client, Idx   int
 	Req           PReq
 	Method        string
@@ -424,6 +451,17 @@ func (w *proxyWorld) originHandler(rw http.ResponseWriter, req *http.Request) {
 		status = 200
 	}
 	full := body(rid, v, r.Size+v*r.SizeStep)
+	if r.Gzip && (status == 200 || status == 203) && strings.Contains(req.Header.Get("Accept-Encoding"), "gzip") {
+		// an origin that compresses for whoever asks for it (and only then)
+		var zb bytes.Buffer
+		zw := gzip.NewWriter(&zb)
+		zw.Write(full)
+		zw.Close()
+		full = zb.Bytes()
+		h.Set("Content-Encoding", "gzip")
+		h.Add("Vary", "Accept-Encoding")
+		w.res.probe("origin_compressed_on_request")
+	}
 	out := full
 
 	if r.Redirect > 0 {
@@ -711,7 +749,7 @@ func (cc *clientConn) close() {
 
 func (w *proxyWorld) resOf(q *PReq) *PRes { return &w.p.Res[q.Res] }
 
-func (w *proxyWorld) openConn(ci, n int, host string) (*clientConn, string) {
+func (w *proxyWorld) openConn(ci, n int, host string, helloDelay time.Duration) (*clientConn, string) {
 	buf := w.p.NetBuf
 	if buf == 0 {
 		buf = 64 << 10
@@ -742,6 +780,10 @@ func (w *proxyWorld) openConn(ci, n int, host string) (*clientConn, string) {
 	sni, _, err := net.SplitHostPort(target)
 	if err != nil {
 		sni = target
+	}
+	if helloDelay > 0 {
+		// a client that takes its time between the 200 and its ClientHello
+		w.sim.WaitUntil("harness:client-hello-delay", time.Now().Add(helloDelay))
 	}
 	tc := tls.Client(&bufferedConn{Conn: raw, br: cc.br}, &tls.Config{RootCAs: w.caPool, ServerName: sni, Time: time.Now})
 	if err := tc.Handshake(); err != nil {
@@ -822,6 +864,10 @@ func (w *proxyWorld) buildRequest(q *PReq, last *Exch) (method string, wire []by
 	}
 	if q.Body > 0 || method == "POST" || method == "PUT" || method == "PATCH" {
 		bd := body(7777, q.Body, q.Body)
+		if q.BodyIsRequest {
+			// content that reads like a request of its own: whoever mistakes it for one answers it
+			bd = []byte(fmt.Sprintf("GET %s HTTP/1.1\r\nHost: %s\r\n\r\n", w.p.Res[0].Path, w.p.Res[0].Host))
+		}
 		if q.ChunkedReq {
 			b.WriteString("Transfer-Encoding: chunked\r\n\r\n")
 			for off := 0; off < len(bd); off += 1000 {
@@ -845,6 +891,14 @@ func (w *proxyWorld) clientTask(ci int) {
 	var cc *clientConn
 	var last *Exch
 	nconn := 0
+	// pipelining: requests held back to be written together with the next one
+	type held struct {
+		ex     *Exch
+		method string
+		q      PReq
+	}
+	var pipe []held
+	var pipeBuf []byte
 	for qi := range w.p.Clients[ci] {
 		q := w.p.Clients[ci][qi]
 		if q.AtMs > 0 {
@@ -913,7 +967,7 @@ func (w *proxyWorld) clientTask(ci int) {
 			}
 			var terr string
 			ex.TunnelOpenSeq = w.nextSeq()
-			cc, terr = w.openConn(ci, nconn, host)
+			cc, terr = w.openConn(ci, nconn, host, time.Duration(q.HelloDelayMs)*time.Millisecond)
 			nconn++
 			ex.ConnHost = host
 			if cc == nil {
@@ -936,6 +990,17 @@ func (w *proxyWorld) clientTask(ci int) {
 		method, wire := w.buildRequest(&q, last)
 		ex.Method = method
 		ex.SendSeq, ex.SendStep, ex.SendT = w.nextSeq(), w.sim.Steps, time.Now()
+		if nq := qi + 1; q.PipeNext && nq < len(w.p.Clients[ci]) && w.p.Clients[ci][nq].SameConn && w.p.Clients[ci][nq].AtMs == q.AtMs && q.Disconnect == 0 {
+			// held back: goes out in one write with the next request
+			pipe = append(pipe, held{ex, method, q})
+			pipeBuf = append(pipeBuf, wire...)
+			w.res.probe("pipelined_request")
+			continue
+		}
+		if len(pipe) > 0 {
+			wire = append(pipeBuf, wire...)
+			pipeBuf = nil
+		}
 		if _, err := cc.rw.Write(wire); err != nil {
 			ex.Err = "write: " + err.Error()
 			ex.RecvSeq = w.nextSeq()
@@ -953,8 +1018,39 @@ func (w *proxyWorld) clientTask(ci int) {
 			ex.RecvSeq = w.nextSeq()
 			continue
 		}
+		// the answers to the requests that went out in the same write come first, in order
+		broken := false
+		for _, h := range pipe {
+			h.ex.Sent = true
+			if broken {
+				h.ex.Err = "connection ended before this pipelined request was answered"
+				h.ex.RecvSeq = w.nextSeq()
+				continue
+			}
+			hq := h.q
+			if !w.readResponse(cc, h.ex, h.method, &hq) {
+				broken = true
+			}
+			h.ex.RecvSeq, h.ex.RecvStep, h.ex.RecvT = w.nextSeq(), w.sim.Steps, time.Now()
+		}
+		pipe = nil
+		if broken {
+			ex.Err = "connection ended before this pipelined request was answered"
+			ex.RecvSeq = w.nextSeq()
+			cc.close()
+			cc = nil
+			continue
+		}
 		keep := w.readResponse(cc, ex, method, &q)
 		ex.RecvSeq, ex.RecvStep, ex.RecvT = w.nextSeq(), w.sim.Steps, time.Now()
+		if ex.Complete && q.Raw == "" {
+			for _, kv := range q.Hdr {
+				if strings.EqualFold(kv[0], "Connection") && strings.EqualFold(kv[1], "close") {
+					ex.Unsolicited = w.lingerForUnsolicited(cc)
+					keep = false
+				}
+			}
+		}
 		last = ex
 		if !keep {
 			cc.close()
@@ -1059,6 +1155,10 @@ func (w *proxyWorld) buildConfig() *config.Config {
 	cfg := config.NewDefault()
 	cfg.Cache.MaxCacheSize.Stage(bytesize.ByteSize(p.MaxSize))
 	cfg.Cache.MaxCacheSize.CommitStaged()
+	if p.MemBudget0 {
+		cfg.Cache.Memory.MemoryBudgetPercent.Stage(0)
+		cfg.Cache.Memory.MemoryBudgetPercent.CommitStaged()
+	}
 	cfg.Cache.CleanupInterval.Stage(duration.Duration(time.Duration(p.IntervalMs) * time.Millisecond))
 	cfg.Cache.CleanupInterval.CommitStaged()
 	cfg.Cache.LockShards.Stage(p.Shards)
@@ -1120,12 +1220,8 @@ func execProxyPlan(t *testing.T, p *ProxyPlan, ctl Ctl) (*proxyWorld, *Result) {
 		} else {
 			w.ca = noCA{}
 		}
-		ctx, cancel := context.WithCancel(context.Background())
-		px, err := proxy.NewProxy(w.cfg, w.ca, ctx)
-		if err != nil {
-			panic(err)
-		}
-		w.px = px
+		simnetBegin(true)
+		s.Quiesced = simnetDeliver
 		w.pxLn = newListener("proxy")
 		w.orLn = newListener("origin")
 		buf := p.NetBuf
@@ -1147,6 +1243,15 @@ func execProxyPlan(t *testing.T, p *ProxyPlan, ctl Ctl) (*proxyWorld, *Result) {
 			},
 			DisableKeepAlives: !p.KeepAlive,
 		}
+		// The proxy sends through http.DefaultTransport and configures it when it starts: the
+		// simulated transport has to be in place by then, so that it gets what production gets.
+		http.DefaultTransport = tr
+		ctx, cancel := context.WithCancel(context.Background())
+		px, err := proxy.NewProxy(w.cfg, w.ca, ctx)
+		if err != nil {
+			panic(err)
+		}
+		w.px = px
 		trk := &trackRT{rt: tr}
 		http.DefaultTransport = trk
 		elog := log.New(logWriter{w}, "", 0)
@@ -1193,6 +1298,8 @@ func execProxyPlan(t *testing.T, p *ProxyPlan, ctl Ctl) (*proxyWorld, *Result) {
 			res.violate("C16.b", "task panic", "task panicked: %s", pm)
 		}
 		// teardown
+		s.Quiesced = nil
+		simnetImmediate()
 		cancel()
 		w.pxLn.Close()
 		w.orLn.Close()
